@@ -81,7 +81,7 @@ def gen_profile(rng, name, names, caps, runtimes, force_fit=True, ids=None):
 
 
 SHAPES = ["single", "chain", "fork", "join", "diamond", "skip", "two_sources", "two_sinks", "cond", "cond_nested", "wide",
-          "cond_skip"]
+          "cond_skip"]      # ("cond_sink" exists for the witness of known finding F42 only)
 
 
 def gen_shape(rng, shape):
@@ -117,6 +117,12 @@ def gen_shape(rng, shape):
         p = rng.choice([0.5, 0.75, 0.25])
         return [("S", ["X"], {}), ("X", ["H", "T"], {"conditional": True}), ("H", ["T"], {"probability": p}),
                 ("T", ["Z"], {"terminal": True, "probability": round(1.0 - p, 2)}), ("Z", [], {})]
+    if shape == "cond_sink":
+        # a branch of the conditional ends in a sink of its own (a side output): S -> X -> {L -> T, R -> {T, Rout}}, T terminal -> Z
+        p = rng.choice([0.5, 0.25, 0.75])
+        return [("S", ["X"], {}), ("X", ["L", "R"], {"conditional": True}), ("L", ["T"], {"probability": p}),
+                ("R", ["T", "Rout"], {"probability": round(1.0 - p, 2)}), ("Rout", [], {}),
+                ("T", ["Z"], {"terminal": True}), ("Z", [], {})]
     if shape == "cond_nested":
         return [("X", ["L", "Y"], {"conditional": True}), ("L", ["T"], {"probability": 0.5}),
                 ("Y", ["M", "N"], {"conditional": True, "probability": 0.5}),
@@ -367,6 +373,28 @@ def signature(world):
         or (not fz and (f.get("scheduler") in PLANNERS or f.get("scheduler") == "Clockwork"))
     if direct and cancels:
         sig.add("join_direct_edge_cancelling")
+    # known finding F42: a conditional branch that contains a sink of the graph (any policy: the join is offered early
+    # through the lookahead, or through an overdue estimate as in F36)
+    def branch_sink(g):
+        nodes = {n["name"]: n for n in g["graph"]}
+        for n in g["graph"]:
+            if not n.get("conditional"):
+                continue
+            todo = list(n.get("children", []))
+            seen_ = set()
+            while todo:
+                c = todo.pop()
+                if c in seen_ or c not in nodes:
+                    continue
+                seen_.add(c)
+                if nodes[c].get("terminal"):
+                    continue
+                if not nodes[c].get("children"):
+                    return True
+                todo += nodes[c].get("children", [])
+        return False
+    if any(branch_sink(g) for g in world["workload"]["graphs"]):
+        sig.add("branch_sink")
     # known finding F41: time values that are not expressed in microseconds reach the CSV rows as raw magnitudes
     if (fz and fz.get("coarse_units")) or any(t.get("deadline", 1) % 1000 == 0 for g in world.get("direct", {}).get("graphs", [])
                                                for t in g["tasks"]):
